@@ -1,4 +1,5 @@
 (* Correspondence checker for the `query` driver (C08).
+   QGas: the gas limit an eth_call really runs with (TransactionArgs.ToMessage: request gas capped by the node's cap).
    QEst: one run of the real EstimateGas (x/evm/keeper/grpc_query.go).  The executable of that request is
          given as the finite table of (gas -> outcome) the harness measured with the real
          ApplyMessageWithConfig(commit=false) on the same committed state; the model's search must stay inside
@@ -69,7 +70,11 @@ Fixpoint ex_steps (steps : list (N * exres)) (d : exres) (g : N) : exres :=
 
 Inductive qcase :=
 | QEst (gas_cap : N) (args_gas : option N) (max_gas : Z) (tab : list (N * exres)) (obs : estres)
-| QBin (lo hi : N) (steps : list (N * exres)) (d : exres) (probes : list N) (obs : bres).
+| QBin (lo hi : N) (steps : list (N * exres)) (d : exres) (probes : list N) (obs : bres)
+(* eth_call of a contract whose first instruction is GAS: obs = the value it returned (None: the call failed).
+   Intrinsic gas of a call without data is 21000 and GAS itself costs 2; the rest of the reporter
+   (PUSH1 MSTORE PUSH1 PUSH1 RETURN, one word of memory) needs 15 more. *)
+| QGas (gas_cap : N) (args_gas : option N) (obs : option N).
 
 Definition q_ok (c : qcase) : bool :=
   match c with
@@ -79,6 +84,11 @@ Definition q_ok (c : qcase) : bool :=
   | QBin lo hi steps d probes obs =>
       listN_eqb (bin_probes est_fuel (ex_steps steps d) lo hi) probes &&
       bres_eqb (bin_search est_fuel (ex_steps steps d) lo hi) obs
+  | QGas gas_cap args_gas obs =>
+      match obs with
+      | Some o => call_gas gas_cap args_gas =? o + 21002
+      | None => call_gas gas_cap args_gas <? 21017
+      end
   end.
 
 Definition query_mismatches (off : nat) (l : list qcase) : list nat := mism q_ok off l.
